@@ -1067,7 +1067,18 @@ class Interp:
             items = self.iterate(v)
             star = [i for i, e in enumerate(t.elts) if isinstance(e, ast.Starred)]
             if star:
-                raise Undecided("starred assignment target")
+                if len(star) > 1:
+                    raise Undecided("two starred assignment targets")
+                k = star[0]
+                after = len(t.elts) - k - 1
+                if len(items) < len(t.elts) - 1:
+                    raise PyRaise("ValueError")
+                for e, x in zip(t.elts[:k], items[:k]):
+                    self.assign(e, x, env)
+                self.assign(t.elts[k].value, Lst(items[k:len(items) - after]), env)
+                for e, x in zip(t.elts[k + 1:], items[len(items) - after:]):
+                    self.assign(e, x, env)
+                return
             if len(items) != len(t.elts):
                 raise PyRaise("ValueError")
             for e, x in zip(t.elts, items):
@@ -1293,6 +1304,11 @@ class Interp:
                 raise PyRaise("IndexError", e)
         if isinstance(base, DictVal):
             return base.d[self.dict_key(base, k)]
+        if isinstance(base, str):
+            try:
+                return base[self.index(k)]
+            except IndexError:
+                raise PyRaise("IndexError", e)
         if isinstance(base, ObjVal):
             m = base.cls.lookup("__getitem__")
             if m is not None:
@@ -1489,6 +1505,11 @@ class Interp:
                 if sym is not None:
                     return sym
             return Str("opaque", ("fmt",))
+        if isinstance(op, (ast.Mod, ast.FloorDiv, ast.BitOr, ast.BitAnd)) and all(isinstance(v, Lin) and v.is_const() and v.const.denominator == 1 for v in (a, b)):
+            x, y = int(a.const), int(b.const)
+            if isinstance(op, (ast.Mod, ast.FloorDiv)) and y == 0:
+                raise PyRaise("ZeroDivisionError", node)
+            return Lin.num({ast.Mod: lambda: x % y, ast.FloorDiv: lambda: x // y, ast.BitOr: lambda: x | y, ast.BitAnd: lambda: x & y}[type(op)]())
         if isinstance(op, (ast.BitAnd, ast.BitOr)):
             x, y = self.truth(a), self.truth(b)
             return (x and y) if isinstance(op, ast.BitAnd) else (x or y)
@@ -1793,6 +1814,8 @@ class Interp:
             its = [self.iterate(a) for a in args]
             m = max(len(i) for i in its) if its else 0
             return Lst([Tup([i[k] if k < len(i) else None for i in its]) for k in range(m)])
+        if n in ("re.findall", "re.search", "re.match", "re.fullmatch", "re.sub", "re.split", "re.finditer") and all(isinstance(a, str) for a in args[:2]) and not any(isinstance(a, Builtin) for a in args[2:]):
+            return self._regex(n[3:], args, kwargs, node)
         if n in ("re.findall", "re.search", "re.sub", "re.split"):
             if n == "re.findall" and all(isinstance(a, str) for a in args[:2]):
                 import re as _re
@@ -1809,6 +1832,59 @@ class Interp:
         if n == "round":
             raise Undecided("round() of a symbolic number")
         raise Undecided("builtin %s" % n)
+
+    def _regex(self, func, args, kwargs, node):
+        """re.<func> on concrete pattern and text: delegated to Python's own engine (an external library, not the
+        code under analysis); every use is recorded for the text-format rules."""
+        import re as _re
+
+        def as_int(v, default=0):
+            if v is None:
+                return default
+            if isinstance(v, Lin) and v.is_const() and v.const.denominator == 1:
+                return int(v.const)
+            if isinstance(v, int):
+                return v
+            raise Undecided("regular-expression argument %r" % (v,))
+        names = {"search": ["pattern", "string", "flags"], "match": ["pattern", "string", "flags"], "fullmatch": ["pattern", "string", "flags"],
+                 "findall": ["pattern", "string", "flags"], "finditer": ["pattern", "string", "flags"],
+                 "split": ["pattern", "string", "maxsplit", "flags"], "sub": ["pattern", "repl", "string", "count", "flags"]}[func]
+        a = dict(zip(names, args))
+        a.update(kwargs)
+        flags = as_int(a.get("flags"))
+        pat, text = a["pattern"], a["string"]
+        if not isinstance(text, str):
+            raise Undecided("regular expression on symbolic text")
+        log = self.__dict__.setdefault("regex_log", [])
+        log.append((self.__dict__.get("frames", ["?"])[-1] if self.__dict__.get("frames") else "?", func, pat, flags, text))
+        try:
+            rx = _re.compile(pat, flags)
+        except _re.error:
+            raise PyRaise("error", node)
+
+        def match_obj(m):
+            if m is None:
+                return None
+            return MockObj({
+                "groups": PyFunc(lambda I_, *x: Tup(list(m.groups()))),
+                "group": PyFunc(lambda I_, *idx: m.group(*[as_int(i) for i in idx]) if idx else m.group()),
+                "start": PyFunc(lambda I_, *idx: Lin.num(m.start(*[as_int(i) for i in idx]))),
+                "end": PyFunc(lambda I_, *idx: Lin.num(m.end(*[as_int(i) for i in idx]))),
+                "span": PyFunc(lambda I_, *idx: Tup([Lin.num(x) for x in m.span(*[as_int(i) for i in idx])])),
+            }, "match")
+        if func in ("search", "match", "fullmatch"):
+            return match_obj(getattr(rx, func)(text))
+        if func == "findall":
+            return Lst([Tup(list(x)) if isinstance(x, tuple) else x for x in rx.findall(text)])
+        if func == "finditer":
+            return IterVal(match_obj(m) for m in rx.finditer(text))
+        if func == "split":
+            return Lst(list(rx.split(text, as_int(a.get("maxsplit")))))
+        if func == "sub":
+            if not isinstance(a["repl"], str):
+                raise Undecided("re.sub with a function replacement")
+            return rx.sub(a["repl"], text, as_int(a.get("count")))
+        raise Undecided("re.%s" % func)
 
     def _isinstance(self, v, c) -> bool:
         classes = c.items if isinstance(c, Tup) else [c]
@@ -2118,6 +2194,8 @@ EXT_CONSTS = {
     "sys.float_info.epsilon": Fraction(1, 2 ** 52),
     "sys.float_info.min": Fraction(1, 2 ** 1022),
     "math.pi": Fraction(884279719003555, 281474976710656),
+    "re.MULTILINE": Fraction(8), "re.M": Fraction(8), "re.DOTALL": Fraction(16), "re.S": Fraction(16), "re.IGNORECASE": Fraction(2), "re.I": Fraction(2),
+    "re.VERBOSE": Fraction(64), "re.X": Fraction(64), "re.ASCII": Fraction(256), "re.A": Fraction(256), "re.UNICODE": Fraction(32), "re.U": Fraction(32),
 }
 
 _BUILTIN_NAMES = {
